@@ -44,7 +44,7 @@ SYMS = ('@P', '@F', '@X', '@O', '@NOP', '@NOF', '@NOX', '@NOO')
 def new_world(files, subdirs=None, ffile=None, exclude=None, out=None, path_is_dir=True):
     """files: [(name, bytes)] top-level files of the -p directory; subdirs: make_dir-style dict; ffile: bytes | None;
     exclude: str | None; out: [(name, bytes)] | None"""
-    return {'files': list(files), 'subdirs': subdirs or {}, 'ffile': ffile, 'exclude': exclude, 'out': out, 'path_is_dir': path_is_dir}
+    return {'files': list(files), 'subdirs': subdirs or {}, 'ffile': ffile, 'exclude': exclude, 'out': out, 'path_is_dir': path_is_dir, 'links': {}}
 
 
 def materialise(w):
@@ -67,6 +67,11 @@ def materialise(w):
                         with open(os.path.join(p, n), 'wb') as f:
                             f.write(d)
         mk(pels, w['subdirs'])
+        # top-level entries that are symbolic links (to a file in a subdirectory, or to another top-level file): for every mode they are the
+        # file they show; removing one removes the LINK
+        for name, target in (w.get('links') or {}).items():
+            os.remove(os.path.join(pels, name))
+            os.symlink(target, os.path.join(pels, name))
     else:
         with open(os.path.join(root, 'pels'), 'wb') as f:       # the -p name exists, but is a regular file
             f.write(b'not a directory')
@@ -339,6 +344,14 @@ def gen_world(rng, env, n=None, with_junk=None, thorough=False, with_copy=True):
     sub = {}
     if rng.random() < 0.8:
         sub = {'archive': [('arch_%08X' % eid, sample), ('other', b'data')], 'nested': {'deeper': [('%08X.pel' % eid, b'zz')]}}
+    links = {}
+    if sub and files and with_copy and rng.random() < 0.35:
+        # links into the archive: one whose name carries the archived log's id, one under a name with another id (targets in a subdirectory: what
+        # the tool does to a link whose target it has just removed itself is outside the model)
+        files.append(('link_%08X' % eid, sample))
+        links['link_%08X' % eid] = os.path.join('archive', 'arch_%08X' % eid)
+        files.append(('alias_0BADF00D', b'data'))
+        links['alias_0BADF00D'] = os.path.join('archive', 'other')
     kind = rng.random()
     selected = pelbuild.pel([pelbuild.UH(), pelbuild.SRC()], eid=0x0F0F0001)
     hidden = pelbuild.pel([pelbuild.UH(af=0x6000), pelbuild.SRC()], eid=0x0F0F0002)
@@ -347,7 +360,9 @@ def gen_world(rng, env, n=None, with_junk=None, thorough=False, with_copy=True):
     codes = [c for c in (ascii_ref(p) for _, p in d) if c]
     exclude = None if rng.random() < 0.25 else '\n'.join(rng.sample(codes, min(len(codes), 2)) + ['BD00FFFF']) + '\n'
     out = None if rng.random() < 0.2 else ([] if rng.random() < 0.7 else [('old.json', b'{}'), ('keep.txt', b'kept')])
-    return new_world(files, sub, ffile, exclude, out), d
+    w = new_world(files, sub, ffile, exclude, out)
+    w['links'] = links
+    return w, d
 
 
 def gen_value(rng, m, d):
